@@ -107,6 +107,12 @@ theorem search_states_inverse_consistent (nrGens : Nat) (rels : List (List Int))
     (hr : BT.Reach (btProblem nrGens rels maxRows) (.ok (Table.new nrGens)) (.ok t)) : Good t :=
   reachable_good hr
 
+/-- ○ part of `extract_valid`: a table is yielded only from a search state in which every
+    slot of every row is defined (no free entry), and it is the `compact()` of that state. -/
+theorem extract_complete (t t' : Table) (h : btExtract (.ok t) = some (.ok t')) :
+    t.compact = .ok t' ∧ ∀ k, k < t.len → ∀ g ∈ t.allGens, ∃ d, t.get k g = .ok (some d) :=
+  btExtract_complete h
+
 /-- ○ `rebase_min_invariant`: the Spec's `canonicalForm` (minimum over all base points of
     the BFS-renumbered table) is a complete invariant of a table up to isomorphism
     (`TabIso t t' n σ`: `σ` is a bijection of the rows with `t'[σ c][g] = σ (t[c][g])` for
